@@ -318,6 +318,67 @@ def check_interp_options(ctx, rule, module_names, floor):
                     signature="assume_sorted", nontrivial=False,
                 )
     ctx.floor(rule, n, floor, "interp1d call sites")
+    check_sorted_lookups(ctx, rule, module_names)
+
+
+SORTED_MAKERS = {"sort", "linspace", "arange", "unique", "sorted", "logspace", "geomspace"}
+TIME_NAMES = {"time", "self.time", "times", "time_scaled"}
+
+
+def check_sorted_lookups(ctx, rule, module_names):
+    """np.interp / np.searchsorted / np.digitize assume an increasing abscissa and answer silently when it is not
+    (interp1d sorts; these do not).  Their abscissa has to be something the code itself ordered - np.sort, np.unique,
+    np.linspace, np.arange, sorted() - or the simulation's time grid, which the properties take as non-decreasing;
+    a table column, an attribute or a parameter is the caller's data in the caller's row order."""
+    import ast as _ast
+
+    LOOKUPS = {"interp": 1, "searchsorted": 0, "digitize": 1}
+    KW = {"interp": "xp", "searchsorted": "a", "digitize": "bins"}
+
+    def ordered(expr, fnode, depth=0):
+        if depth > 6:
+            return False
+        if isinstance(expr, _ast.Call):
+            f = expr.func
+            nm = f.id if isinstance(f, _ast.Name) else f.attr if isinstance(f, _ast.Attribute) else ""
+            if nm in SORTED_MAKERS:
+                return True
+            if nm in ("asarray", "array", "ascontiguousarray", "copy", "astype", "to_numpy", "ravel", "float64") and (expr.args or isinstance(f, _ast.Attribute)):
+                inner = expr.args[0] if expr.args else f.value
+                return ordered(inner, fnode, depth + 1)
+            return False
+        txt = _ast.unparse(expr)
+        if txt in TIME_NAMES:
+            return True
+        if isinstance(expr, _ast.Name) and fnode is not None:
+            asg = [n for n in _ast.walk(fnode) if isinstance(n, _ast.Assign) and any(isinstance(t, _ast.Name) and t.id == expr.id for t in n.targets)]
+            if len(asg) == 1:
+                return ordered(asg[0].value, fnode, depth + 1)
+        return False
+
+    for mn in module_names:
+        m = ctx.P.module(mn)
+        for fi in [f for f in ctx.P.functions.values() if f.module is m and f.parent is None]:
+            for node in _ast.walk(fi.node):
+                if not isinstance(node, _ast.Call):
+                    continue
+                f = node.func
+                nm = f.attr if isinstance(f, _ast.Attribute) else f.id if isinstance(f, _ast.Name) else ""
+                if nm not in LOOKUPS:
+                    continue
+                if isinstance(f, _ast.Attribute) and not (isinstance(f.value, _ast.Name) and f.value.id in ("np", "numpy")):
+                    # x.searchsorted(v): the receiver is the abscissa
+                    absc = f.value if nm == "searchsorted" else None
+                else:
+                    kw = {k.arg: k.value for k in node.keywords if k.arg}
+                    absc = kw.get(KW[nm]) or (node.args[LOOKUPS[nm]] if len(node.args) > LOOKUPS[nm] else None)
+                if absc is None:
+                    continue
+                ctx.check(
+                    ordered(absc, fi.node), rule, f"{fi.qualname}:{nm}@{_ast.unparse(absc)[:40]}", f"{m.relpath}:{node.lineno}",
+                    "a bisection / np.interp lookup runs over an abscissa the code itself put in increasing order (np.interp and np.searchsorted do not sort; a descending or unsorted table is answered silently and wrongly)",
+                    signature="unsorted abscissa " + nm, abscissa=_ast.unparse(absc)[:80],
+                )
 
 
 def _param_defaults_to(fnode, name, value):
@@ -567,6 +628,79 @@ def array_safe(ctx, qualname, par, opaque=()):
             bad += [d for d in deps if d not in bad]
     bad += [d for d in sized if d not in bad]
     return not bad, bad
+
+
+def wrapper_stubs(ctx, qual, stub, stubs=None):
+    """`qual` is a thin wrapper when every return hands back the result of one package function F (`return F(...)`).
+    Code that calls F directly - with the arguments the wrapper would pass for the same leading arguments - computes
+    what `qual` computes; returns {F: stub'} where stub' answers like `stub` after checking exactly that (the wrapper is
+    interpreted with F recorded, under the same stubs), and raises AnalysisError otherwise."""
+    import ast as _ast
+
+    from ..symeval import Interp
+
+    P = ctx.P
+    fi = P.func(qual)
+    rets = [n for n in _ast.walk(fi.node) if isinstance(n, _ast.Return)]
+    inner = set()
+    for r in rets:
+        v = r.value
+        if not (isinstance(v, _ast.Call) and isinstance(v.func, (_ast.Name, _ast.Attribute))):
+            return {}
+        nm = v.func.id if isinstance(v.func, _ast.Name) else v.func.attr
+        cands = [f for f in P.functions.values() if f.module is fi.module and f.parent is None and f.cls is None and f.name == nm]
+        if len(cands) != 1:
+            return {}
+        inner.add(cands[0].qualname)
+    if len(inner) != 1:
+        return {}
+    (fq,) = inner
+    if fq == qual:
+        return {}
+    base = dict(stubs or {})
+
+    def stub_inner(b):
+        rec = {}
+
+        def record(bb):
+            rec.update(bb)
+            return stub(bb)
+
+        it = Interp(P, policy=std_policy(False), stubs=dict(base, **{fq: record}))
+        args = {k: b[k] for k in fi.params if k in b}
+        if set(args) != set(fi.params):
+            raise AnalysisError(f"{fq}: called without the arguments of its wrapper {qual.split('.')[-1]}")
+        it.run_function(qual, args=args)
+        for k, v in b.items():
+            if k not in rec or it.to_nf(rec[k]) != it.to_nf(v):
+                raise AnalysisError(f"{fq}: called with {k} = {nf.show(it.to_nf(v), 80)}, not with what {qual.split('.')[-1]} passes for the same fluid")
+        return stub(b)
+
+    return {fq: stub_inner}
+
+
+def strip_forwarded_options(p, quals):
+    """Drop, from the terms `q(args...)` of package functions kept as one term, trailing arguments that are the caller's
+    own new option handed on unchanged (`name@option`, bound by an option context of options.py): the callee is analysed
+    under that same option in the forwarded context, here it is the documented call."""
+
+    def f(a):
+        if a[0] == "fn" and a[1] in quals and a[2]:
+            args = list(a[2])
+            n = len(args)
+            while args:
+                x = nf.unkey(args[-1])
+                syms = nf.symbols(x)
+                at = [t for t in nf.atoms(x)]
+                if len(at) == 1 and at[0][0] == "sym" and at[0][1].endswith("@option") and x == nf.sym(at[0][1]):
+                    args.pop()
+                else:
+                    break
+            if len(args) != n:
+                return nf.fn(a[1], *[nf.unkey(x) for x in args])
+        return None
+
+    return nf.subst(p, f)
 
 
 def check_bubble_threshold(ctx, rule, quals):
